@@ -114,3 +114,94 @@ def long_numerals(q):
         if len(digits) > 28:
             res.append(m.group(1))
     return res
+
+
+# ---------------------------------------------------------------------------------------------
+# reference tokenizer: an independent reading of the documented lexical rules (same rules as the
+# Lean model lean/Luqum/Model/Lexer.lean), used by the failing-input search of C03
+# ---------------------------------------------------------------------------------------------
+
+_TERM_FIRST_EXCL = set(":^~(){}[]/\"'+-\\<>")
+_TERM_NEXT_EXCL = set(":^\\~(){}[]")
+RESERVED = {"AND": "AND_OP", "OR": "OR_OP", "NOT": "NOT", "TO": "TO"}
+
+
+def _is_space(c):
+    return bool(re.match(r"\s", c))
+
+
+def _is_digit(c):
+    return bool(re.match(r"\d", c))
+
+
+def spec_lex(q):
+    """[(type, lexeme, pos)] or None when some character cannot start a token"""
+    toks = []
+    i, n = 0, len(q)
+    while i < n:
+        c = q[i]
+        if _is_space(c):
+            i += 1
+            continue
+        single = {"+": "PLUS", "-": "MINUS", ":": "COLUMN", "(": "LPAREN", ")": "RPAREN", "[": "LBRACKET",
+                  "{": "LBRACKET", "]": "RBRACKET", "}": "RBRACKET"}
+        if c in single:
+            toks.append((single[c], c, i))
+            i += 1
+        elif c in "<>":
+            j = i + 2 if q[i + 1:i + 2] == "=" else i + 1
+            toks.append(("LESSTHAN" if c == "<" else "GREATERTHAN", q[i:j], i))
+            i = j
+        elif c in "\"/":
+            j = i + 1
+            while True:
+                if j >= n:
+                    return None
+                if q[j] == c:
+                    break
+                if q[j] == "\\":
+                    if j + 1 >= n or q[j + 1] == "\n":
+                        return None
+                    j += 2
+                else:
+                    j += 1
+            toks.append(("PHRASE" if c == "\"" else "REGEX", q[i:j + 1], i))
+            i = j + 1
+        elif c in "~^":
+            j = i + 1
+            while j < n and q[j] in "0123456789.":
+                j += 1
+            toks.append(("APPROX" if c == "~" else "BOOST", q[i:j], i))
+            i = j
+        else:
+            if c == "\\":
+                if i + 1 >= n or q[i + 1] == "\n":
+                    return None
+                j = i + 2
+            elif c in _TERM_FIRST_EXCL:
+                return None
+            else:
+                j = i + 1
+            while j < n:
+                d = q[j]
+                if d == "\\":
+                    if j + 1 < n and q[j + 1] != "\n":
+                        j += 2
+                        continue
+                    break
+                if d == ":":
+                    # a time: "T" + two digits before, two digits after, optionally ":" + two digits
+                    if j >= 3 and q[j - 3] == "T" and _is_digit(q[j - 2]) and _is_digit(q[j - 1]) and \
+                            j + 2 < n + 0 and _is_digit(q[j + 1]) and _is_digit(q[j + 2]):
+                        j += 3
+                        if j + 2 < n + 0 and q[j] == ":" and _is_digit(q[j + 1]) and _is_digit(q[j + 2]):
+                            j += 3
+                        continue
+                    break
+                if _is_space(d) or d in _TERM_NEXT_EXCL:
+                    break
+                j += 1
+            text = q[i:j]
+            toks.append((RESERVED.get(text, "TERM"), text, i))
+            i = j
+    return toks
